@@ -1142,9 +1142,16 @@ func (bc *BlockChain) insertChain2(chain types.Blocks, try int) (int, []interfac
 		case err == ErrKnownBlock:
 			// Block and state both already known. However if the current block is below
 			// this number we did a rollback and we should reimport it nonetheless.
-			if bc.CurrentBlock().NumberU64() >= block.NumberU64() {
-				stats.ignored++
-				continue
+			if current := bc.CurrentBlock(); current.NumberU64() >= block.NumberU64() {
+				// ... or it is heavier than the current head: after a crash (or a
+				// failed write) between storing the block and moving the head to it,
+				// the better chain must not be ignored when it is offered again
+				localTd := bc.GetTd(current.Hash(), current.NumberU64())
+				externTd := bc.GetTd(block.Hash(), block.NumberU64())
+				if localTd == nil || externTd == nil || externTd.Cmp(localTd) <= 0 {
+					stats.ignored++
+					continue
+				}
 			}
 
 		case err == consensus.ErrFutureBlock:
